@@ -27,8 +27,35 @@ LABEL_FLOORS = {'env-ideal': 0.3, 'pair-junc': 0.3, 'pair-gnd': 0.1, 'thick': 0.
 @st.composite
 def case_strategy(draw, big=False):
     thick = draw(st.sampled_from([None, True, False]))
-    u = draw(st.integers(0, 9))
-    if u <= 1:
+    u = draw(st.integers(0, 10))
+    if u == 10:
+        # a grounded vertical tapered wire whose maximum segment length binds (several equal segments in the
+        # middle or at the far end), optionally with a top wire: ground pulse x equal-halves interior pulses
+        f = draw(gen.frequency())
+        lam = gen.C_MHZ_M / f
+        n = draw(st.integers(6, 12 if not big else 16))
+        sl = draw(gen.logf(1 / 60., 1 / 16.)) * lam
+        L = n * sl
+        r = draw(gen.logf(1e-6, 1 / 500.)) * lam if thick is None else (draw(gen.logf(1.0001e-4, 1 / 500.)) * lam if thick else draw(gen.logf(1e-7, 0.99e-4)) * lam)
+        tmin = max(8 * r, lam / 200.0)
+        w = dict(type='wire', n=n, p1=[0.0, 0.0, 0.0], p2=[0.0, 0.0, gen.r6(L)], r=gen.r6(r), tag=None,
+                 taper=draw(st.integers(1, 3)), tmin=gen.r6(tmin), tmax=gen.r6(min(lam / 10.0, sl * draw(st.floats(1.05, 1.6)))), _rev=False)
+        if w['tmin'] >= w['tmax'] * 0.9:
+            w['tmin'] = gen.r6(w['tmax'] / 3)
+        objs = [w]
+        if draw(st.booleans()):
+            nt_ = draw(st.integers(2, 5))
+            objs.append(dict(type='wire', n=nt_, p1=list(w['p2']), p2=[gen.r6(nt_ * sl), 0.0, w['p2'][2]], r=gen.r6(r), tag=None,
+                             taper=0, tmin=None, tmax=None, _rev=False))
+        for o in objs:
+            if draw(st.booleans()):
+                o['p1'], o['p2'] = o['p2'], o['p1']
+                o['_rev'] = True
+        objs = draw(gen.shuffled(objs))
+        case = {'f': f, 'env': {'kind': 'ideal'}, 'objs': objs, 'xforms': [], 'scales': [], 'sources': [], 'loads': []}
+        draw(gen.sources(case, 1, 1))
+        case['_info'] = dict(template='tapered-monopole', tag_style='auto', tapered=True)
+    elif u <= 1:
         case = draw(gen.curve_antenna(env_kinds=('free', 'ideal'), nsrc=(1, 1)))
     elif u <= 3:
         # collinear wires of different radii whose segment vectors are bit-identical across the junction
